@@ -32,7 +32,7 @@ def clause_id(oid):
 
 
 def discharge(o, tier):
-  r = smt.prove(o.assumptions, o.goal)
+  r = smt.prove(o.assumptions, o.goal, axioms_only=getattr(o, 'axioms_only', None))
   o.result = r
   o.status = r.status
   cross = None
